@@ -85,7 +85,9 @@ pub fn run_case(u: &Universe, case: &Value) -> Vec<Value> {
     let leaves: Vec<String> = case["leaves"].as_array().unwrap().iter().map(|a| ast_to_string(u, a, "tap")).collect();
     let depths: Vec<u64> = case["dl"].as_array().unwrap().iter().map(|x| x.as_u64().unwrap()).collect();
     let kind = case["kind"].as_str().unwrap_or("tr");
-    let ds = if kind == "pkh" {
+    let ds = if kind == "pkhU" {
+        format!("pkh({})", u.uncompressed_hex(ik))
+    } else if kind == "pkh" {
         format!("pkh({})", u.key_str(ik, "legacy"))
     } else if kind == "wpkh" {
         format!("wpkh({})", u.key_str(ik, "segwitv0"))
